@@ -242,22 +242,45 @@ def run_case(case, R):
                     if not isinstance(q, numpoly.ndpoly) or tuple(q.shape) != tuple(p.shape) or alpha(q) != model_of(sp):
                         R.fail("savetxt/loadtxt", "wrong-value", f"extra {i} {str(sp['t'])[:80]} via {target}: loaded {str(q)[:200]}", tags=["wide_or_magnitude"])
     elif k == "plain":
-        # a file without the numpoly header loads as a plain array
-        for arr in (numpy.arange(6.0).reshape(2, 3), numpy.array([1.5, 2.5]), numpy.array([[7.0]])):
-            for delim in (" ", ","):
-                R.tr()
-                f = io.StringIO()
-                numpy.savetxt(f, arr, delimiter=delim, header="just a comment")
-                f.seek(0)
-                f2 = io.StringIO(f.getvalue())
-                try:
-                    got = numpoly.loadtxt(f, delimiter=None if delim == " " else delim)
-                    want = numpy.loadtxt(f2, delimiter=None if delim == " " else delim)
-                except Exception as err:  # noqa: BLE001
-                    R.fail("loadtxt", "exception", f"plain file: {type(err).__name__}: {err}", tags=["plain"])
-                    continue
-                if isinstance(got, numpoly.ndpoly) or not isinstance(got, numpy.ndarray) or got.shape != want.shape or not (got == want).all():
-                    R.fail("loadtxt", "wrong-value", f"plain file loaded as {type(got).__name__} {got!r}, numpy.loadtxt gives {want!r}", tags=["plain"])
-                R.state(("plain", arr.shape, delim))
+        # a file without the numpoly header loads as a plain array: header line x delimiter x target x loader keywords
+        scratch = tempfile.mkdtemp(prefix="c13p-")
+        try:
+            for arr in (numpy.arange(6.0).reshape(2, 3), numpy.array([1.5, 2.5]), numpy.array([[7.0]]), numpy.arange(8.0).reshape(4, 2), numpy.array(3.0)):
+                for delim in (" ", ","):
+                    for header in ("just a comment", "", "numpoly is mentioned but this is no header", "names:q0 keys:; shape:2"):
+                        for target in ("StringIO", "BytesIO", "path", "Path"):
+                            for kw in ({}, {"skiprows": 1}, {"ndmin": 2}, {"unpack": True}, {"max_rows": 1}, {"usecols": (0,)}):
+                                if arr.ndim == 0 and kw:
+                                    continue
+                                R.tr()
+                                f = io.StringIO()
+                                numpy.savetxt(f, numpy.atleast_1d(arr), delimiter=delim, header=header)
+                                text = f.getvalue()
+                                lab = f"plain {arr.shape} header={header!r} delimiter={delim!r} {target} {kw}"
+                                if target in ("path", "Path"):
+                                    path = os.path.join(scratch, "plain.txt")
+                                    with open(path, "w") as dst:
+                                        dst.write(text)
+                                    src = path if target == "path" else pathlib.Path(path)
+                                else:
+                                    src = io.StringIO(text) if target == "StringIO" else io.BytesIO(text.encode())
+                                dl = None if delim == " " else delim
+                                try:
+                                    want = numpy.loadtxt(io.StringIO(text), delimiter=dl, **kw)
+                                except Exception:  # noqa: BLE001
+                                    R.stat("numpy_rejects")
+                                    continue
+                                try:
+                                    got = numpoly.loadtxt(src, delimiter=dl, **kw)
+                                except Exception as err:  # noqa: BLE001
+                                    R.fail("loadtxt", "exception", f"{lab}: {type(err).__name__}: {err}", tags=["plain"])
+                                    continue
+                                if isinstance(got, numpoly.ndpoly) or not isinstance(got, numpy.ndarray) or got.shape != want.shape or not (got == want).all():
+                                    R.fail("loadtxt", "wrong-value", f"{lab}: loaded as {type(got).__name__} {got!r}, numpy.loadtxt gives {want!r}"[:400], tags=["plain"])
+                                else:
+                                    R.outcome(("plain", lab))
+                    R.state(("plain", arr.shape, delim))
+        finally:
+            shutil.rmtree(scratch, ignore_errors=True)
     else:
         raise KeyError(k)
